@@ -295,6 +295,7 @@ pub struct Obj {
 
 impl Obj {
     pub fn of_fd(fd: i32) -> Obj {
+        let _h = HarnessSection::enter();
         let st = fstat(fd).expect("fstat returned fd");
         Obj { dev: st.id.dev, ino: st.id.ino, ftype: st.ftype(), getfl: fcntl_getfl(fd), cloexec: fcntl_getfd(fd) & libc::FD_CLOEXEC != 0, fd }
     }
